@@ -162,7 +162,7 @@ def run(ctx):
                 "non-trivial = >= 2 recordings in different sub-directories; distinct = distinct case spec")
     ctx.assumptions += ["paths are compared as spelled (lexically): a '..' hop below the audio directory and a symlinked sub-directory are part of the spelling", "a failed save must leave the target path absent (or byte-identical to a pre-existing file)"]
     ctx.must_monitors += ["paths_saved", "paths_loaded", "save_rejection"]
-    ctx.must_reach += ["io/aoef/recording.py::RecordingAdapter.assemble_aoef", "io/aoef/recording.py::RecordingAdapter.assemble_soundevent"]
+    ctx.must_reach += ["?io/aoef/recording.py::RecordingAdapter.assemble_aoef", "?io/aoef/recording.py::RecordingAdapter.assemble_soundevent", "io/saver.py::save", "io/loader.py::load"]
     n = ctx.scale(120, 250)
     for kind in graphs.COLLECTIONS:
         for i in range(n):
